@@ -57,5 +57,12 @@ func checkSpecs() map[string]CheckSpec {
 		{Func: "HC20_Simplify", Domain: X, RealInputs: true, Covers: []string{"end"}},
 	}, Explanation: "xy.SimplifyFlatCoords executed symbolically on integer-grid points with a symbolic threshold; the interval stack, mask and distance function run for real; distances are exact reals.",
 		Outside: []string{"more points than the bound", "ordinates off the integer grid / rounding inside distanceFromSegmentSquared near ties (the division is followed in exact real arithmetic)"}})
+	add(CheckSpec{Property: "C10", Harnesses: []HarnessSpec{
+		{Func: "HC10_Exact", Domain: X, RoundModel: true, DeltaModel: true, Covers: []string{"end"}},
+		{Func: "HC10_Symmetry", Domain: X, RoundModel: true, DeltaModel: true, Covers: []string{"end"}},
+		{Func: "HC10_Search", Domain: X, RoundModel: true, IntInputs: true, NoPrune: true, BugHunt: true, Tiers: "search", Covers: []string{"end"}},
+	}, Explanation: "bigxy.OrientationIndex (floating-point filter and big.Float fallback) on integer-valued ordinates: exact-representability obligations, exact RN53 model for integer results beyond 2^53, (1+d) enclosure for the multiplication by dpSafeEpsilon, precision-tracking model of math/big.Float.",
+		Assumptions: []string{"math/big.Float follows its documented precision/rounding rules (model in engine/bigfloat.go)"},
+		Outside: []string{"non-integer ordinates; ordinates beyond the grid bound (most of [1e-100,1e100])"}})
 	return m
 }
